@@ -34,7 +34,7 @@ extern "C" void h_hist() {
         // stream ends inside the second object (container 1 holds object 0 and 16 bytes of object 1)
         static unsigned char img[4096]; long n = vp_fs_get("b.blf", img, sizeof img);
         // rebuild with small containers so that an object straddles: rewrite the file with container size 64
-        vp_fs_truncate("b.blf", n - 20 - 32);
+        (void)n; vp_fs_truncate("b.blf", 144 + 2 * (32 + 64) + 40);   // two complete containers = 2 objects + 32 bytes of the third
         readable = -1;      // number of deliverable objects is not asserted for the damaged file
     }
     File * f = new File; f->compressionLevel = 0; f->setDefaultLogContainerSize(64);
